@@ -83,9 +83,14 @@ type Input struct {
 	// through a symbolic link (the root itself / a directory above it); in-root sources are spelled through the
 	// link like the root ("-link") or through the real path ("-real")
 	RootLink string `json:"rootLink"`
-	Ops      []Op   `json:"ops"`
-	V        string `json:"v"`
-	W        string `json:"w"`
+	// Spelling of the install sources: "canonical" | "slash" (directory with a trailing /) | "dot" (base/./x) |
+	// "dslash" (base//x) | "dotdot" (base/zz/../x) | "relative" (to the working directory)
+	Spelling string `json:"spelling"`
+	// RelRoot: the manager gets the plugin root as a path relative to the working directory
+	RelRoot bool   `json:"relRoot"`
+	Ops     []Op   `json:"ops"`
+	V       string `json:"v"`
+	W       string `json:"w"`
 }
 
 // ---- observation ---------------------------------------------------------------------------
@@ -251,6 +256,40 @@ func inRoot(base, root string, op Op) (string, error) {
 		return "", fmt.Errorf("in-root file source needs exactly one entry")
 	}
 	return filepath.Join(d, op.Entries[0].Name), nil
+}
+
+// spell: the same source, written differently. Not applied to a missing / empty path, nor to a source
+// reached through a symbolic link (a trailing slash would make the link itself resolve, which changes what
+// the walk sees - see viaLink); a trailing slash only for directories.
+func spell(path, how, work string, op Op) string {
+	if path == "" || op.ViaLink || (len(op.Entries) == 0 && !op.SrcIsDir) {
+		return path
+	}
+	d, b := filepath.Dir(path), filepath.Base(path)
+	sep := string(filepath.Separator)
+	switch how {
+	case "slash":
+		if op.SrcIsDir {
+			return path + sep
+		}
+	case "dot":
+		return d + sep + "." + sep + b
+	case "dslash":
+		return d + sep + sep + b
+	case "dotdot":
+		if op.SrcIn != "" {
+			return d + sep + "." + sep + b // nothing is created inside the plugin root
+		}
+		if err := os.MkdirAll(filepath.Join(d, "zz"), 0o755); err != nil {
+			return path
+		}
+		return d + sep + "zz" + sep + ".." + sep + b
+	case "relative":
+		if r, err := filepath.Rel(work, path); err == nil {
+			return r
+		}
+	}
+	return path
 }
 
 // materialise builds the source of an install operation under base and returns PluginPath.
@@ -448,7 +487,18 @@ func runSeq(work string, in Input) (Obs, error) {
 		}
 	}
 	ctx := context.Background()
-	m := plugin.NewCLIManager(dir.NewSysFS(root))
+	// the working directory of the sequence (one sequence at a time per process)
+	if err := os.Chdir(work); err != nil {
+		return obs, err
+	}
+	defer os.Chdir(os.TempDir())
+	mroot := root
+	if in.RelRoot {
+		if r, err := filepath.Rel(work, root); err == nil {
+			mroot = r
+		}
+	}
+	m := plugin.NewCLIManager(dir.NewSysFS(mroot))
 	for k, op := range in.Ops {
 		st := StepObs{Err: "ok"}
 		switch op.Kind {
@@ -457,6 +507,7 @@ func runSeq(work string, in Input) (Obs, error) {
 			if err != nil {
 				return obs, err
 			}
+			path = spell(path, in.Spelling, work, op)
 			cctx, cancel := ctx, context.CancelFunc(func() {})
 			switch op.Ctx {
 			case "deadline":
@@ -896,6 +947,8 @@ func (g *gen) afterPlant(pl Op) (Op, bool) {
 	return g.fromRoot(pl.Name, es, isDir, f, g.chance(0.5), g.chance(0.3)), true
 }
 
+var spellings = []string{"canonical", "slash", "dot", "dslash", "dotdot", "relative"}
+
 var rootLinks = []string{"self-link", "self-real", "ancestor-link", "ancestor-real"}
 
 func (g *gen) rmexe() Op {
@@ -909,7 +962,10 @@ func (g *gen) uninstall() Op {
 
 func (g *gen) sequence() Input {
 	n := 1 + g.c.Rand.Intn(6)
-	in := Input{Kind: "seq", NoRoot: g.chance(0.1), RootLink: "none", Ops: []Op{}}
+	in := Input{Kind: "seq", NoRoot: g.chance(0.1), RootLink: "none", Spelling: "canonical", RelRoot: g.chance(0.25), Ops: []Op{}}
+	if g.chance(0.4) {
+		in.Spelling = g.pick(spellings)
+	}
 	if g.chance(0.3) {
 		in.RootLink = g.pick(rootLinks)
 		if in.NoRoot && strings.HasPrefix(in.RootLink, "self") {
@@ -1253,6 +1309,11 @@ func Run(c *common.Ctx) error {
 		}
 		if seqs[i].RootLink == "" {
 			seqs[i].RootLink = "none"
+		}
+		// spellings and relative roots: the random sequences draw them, everything else cycles through them
+		if seqs[i].Spelling == "" {
+			seqs[i].Spelling = spellings[i%len(spellings)]
+			seqs[i].RelRoot = (i/len(spellings))%3 == 1
 		}
 	}
 
